@@ -760,7 +760,14 @@ class Evaluator:
         if not proj:
             frame.env[l] = val
             if l == 0:
-                self._log(frame, bi, si, kind="ret0", value=val)
+                if tag(val) == "vsum" and len(val) > 3 and val[3][0] == "by":
+                    # `r.map(f)` returned as it is = `match r { Ok(v) => Ok(f(v)), Err(e) => Err(e) }`: one return per variant of r
+                    for nm, payload in val[2]:
+                        e_ = self._log(frame, bi, si, kind="ret0", value=("variant", val[1], nm, payload))
+                        if e_ is not None:
+                            e_.setdefault("extra_guards", []).append(("variant-is", val[3][1], nm))
+                else:
+                    self._log(frame, bi, si, kind="ret0", value=val)
             return
         # find the deepest deref
         last_deref = -1
@@ -1522,7 +1529,12 @@ class Evaluator:
             if vn != tgt:
                 outv[vn] = payload
                 continue
-            if cb is None or not self._should_inline(cb, cb.path):
+            ctor = re.search(r"(?:^|::)(Some|Ok|Err)(?:::<.*>)?$", fval[1]) if tag(fval) == "fn" and isinstance(fval[1], str) else None
+            if ctor and len(payload) == 1:
+                # `.map(Some)` / `.map_err(Err)`: a tuple-variant constructor used as a function
+                nm = ctor.group(1)
+                r = ("variant", "std::option::Option" if nm == "Some" else "std::result::Result", nm, (payload[0],))
+            elif cb is None or not self._should_inline(cb, cb.path):
                 self._invalidate()
                 r = ("call", "closure", (fval,) + tuple(payload), site)
             else:
@@ -1564,6 +1576,9 @@ class Evaluator:
         if len(outv) == 1:
             (n, p), = outv.items()
             return ("variant", adt, n, p)
+        if op in ("map", "map_err", "inspect", "inspect_err") and tag(recv) not in ("variant", "vsum"):
+            # the result has the receiver's variant, case by case: remember the receiver, so that `return r.map(f)` can be read as one return per variant
+            return ("vsum", adt, tuple(sorted(outv.items())), ("by", recv))
         return ("vsum", adt, tuple(sorted(outv.items())))
 
     def _inline(self, frame, bi, cb, args, entry, guard=None):
@@ -1859,6 +1874,12 @@ def implied_facts(guards):
                     facts.add(("cmp", "Gt", x[2][1], x[2][0]))
         elif t == "is" and truth is not None:
             facts.add(("is", cond[1], cond[2], truth))
+        elif t == "variant-is" and truth:
+            idx = {"Ok": 0, "Err": 1, "None": 0, "Some": 1, "Continue": 0, "Break": 1}.get(cond[2])
+            if idx is not None:
+                facts.add(("discr", cond[1], ("eq", idx)))     # the same fact a `match` on the value gives
+            else:
+                facts.add(("bool", cond, True))
         elif truth is not None:
             facts.add(("bool", cond, truth))
         else:
